@@ -1339,9 +1339,9 @@ def st_banner():
             length += 1 + len(model['comment'])
         return length <= 255
     return st.one_of(
-        st.builds(assemble, proto, st.one_of(canonical, canonical, unknown), comment, st.just(False)),
-        st.builds(assemble, proto, st.one_of(canonical, canonical, unknown), comment, st.just(False)),
-        st.builds(assemble, proto, st.one_of(canonical, canonical, unknown), comment, st.just(False)),
+        st.builds(assemble, proto, st.one_of(canonical, canonical, canonical, unknown), comment, st.just(False)),
+        st.builds(assemble, proto, st.one_of(canonical, canonical, canonical, unknown), comment, st.just(False)),
+        st.builds(assemble, proto, st.one_of(canonical, canonical, canonical, unknown), comment, st.just(False)),
         st.builds(assemble, proto, near, comment, st.just(True)),
     ).filter(fits)
 
@@ -1465,7 +1465,7 @@ def observe(case, stats):
         spec = case['packet']
         reference = b'packet:%d:%s:%s' % (spec['length'], spec['shape'].encode(), spec['record'].encode())
         stats.cls('SshRecord' + spec['record'])
-        stats.cls(MESSAGE_CLASSES[packet_message(dict(spec, length=max(spec['length'], 62) if spec['shape'] == 'kexinit' else spec['length']))['t']])
+        stats.cls(MESSAGE_CLASSES[spec['shape']])
         labels.add('packet:len%%8=%d' % (spec['length'] % 8))
         labels.add('packet:' + spec['shape'])
         nontrivial = True
